@@ -275,7 +275,8 @@ class Checker(object):
                 pass
         want = (len(clusters) + ea_charge) * img.cratio * (img.bs // 512)
         have = img.i_blocks_sectors(I)
-        if ino not in (7,) and want != have and not self.shared_ok:
+        # (creator OS Hurd: i_blocks also counts the translator block and e2fsck deliberately does not compare it; the osd2 words mean other things there)
+        if ino not in (7,) and want != have and not self.shared_ok and img.sb.s_creator_os != 1:
             self.bad('A', 'i_blocks', '%s has %d, maps %d' % (tag, have, want))
         # in-inode xattrs + inline data
         self.check_inode_xattrs(ino, I)
